@@ -103,6 +103,26 @@ fn tpl(family: &'static str, pattern: &str) -> Template {
     Template { family, pieces }
 }
 
+/// Space N: sequences with one swept numeric field (`#`), the other fields fixed at ordinary values.
+pub const NUMERIC_SWEEPS: [&str; 16] = [
+    "\\e[#u",
+    "\\e[#;5u",
+    "\\e[97;#u",
+    "\\e[97:#;2u",
+    "\\e[97;2:#u",
+    "\\e[?#u",
+    "\\e[#~",
+    "\\e[1;#A",
+    "\\e[?#;1$y",
+    "\\e[?25;#$y",
+    "\\e[?2026;#$y",
+    "\\e[<#;10;5M",
+    "\\e[<#;10;5m",
+    "\\e[#m",
+    "\\e[38;5;#m",
+    "\\e[4:#m",
+];
+
 pub fn templates() -> Vec<Template> {
     vec![
         tpl("cursor", "\\e[#;#R"),
@@ -668,6 +688,38 @@ pub fn worker(ctx: &Ctx, mut wc: WorkerCtx, _extra: &[String]) {
         }
     }
 
+    // ---- N: every value of one numeric field (value-dependent tables and arithmetic are invisible to the
+    // automaton: a panic may sit behind a single number)
+    {
+        let top: u64 = if ctx.tier == Tier::Thorough { 0x11_0010 } else { 70_000 };
+        for (ti, t) in NUMERIC_SWEEPS.iter().enumerate() {
+            let pattern = t.replace("\\e", "\x1b");
+            const BLOCK: u64 = 8192;
+            let mut lo = 0u64;
+            while lo <= top {
+                unit += 1;
+                let hi = (lo + BLOCK - 1).min(top);
+                if unit % shards == shard {
+                    let mut n = 0u64;
+                    for v in lo..=hi {
+                        case += 1;
+                        if case <= resume {
+                            continue;
+                        }
+                        let s = pattern.replace('#', &v.to_string()).into_bytes();
+                        wc.begin_case(case, &descriptor(0, Which::Event, &s, &[ti as u8]));
+                        n += 1;
+                        for which in [Which::Event, Which::Command] {
+                            check_and_report(&mut wc, &mut local, which, &s, &[vec![s.len()]], "light", false);
+                        }
+                    }
+                    wc.count("N_values", n);
+                }
+                lo = hi + 1;
+            }
+        }
+    }
+
     // ---- E: edits of base tokens
     {
         let bases = base_tokens();
@@ -763,12 +815,13 @@ pub fn run(ctx: &Ctx) -> Result<Report, String> {
     let p = params(ctx.tier);
     let mut r = Report::new("exploration");
     r.set("evaluations", evaluations)
-        .set("distinct_nontrivial", c("H_tokens") + c("H_fixed") + c("E_single_edits") + c("E_double_edits") + c("U_lattice"))
+        .set("distinct_nontrivial", c("H_tokens") + c("H_fixed") + c("N_values") + c("E_single_edits") + c("E_double_edits") + c("U_lattice"))
         .set(
             "rule",
             "every case is a distinct byte string (per decoder) fed whole, at every single cut, byte by byte and byte by byte with \
              empty reads (all partitions for length <= 5); B = all byte strings up to the stated length x 3 decoders; U = UTF-8 \
-             boundary lattice + every scalar value; H = family templates x hostile number lattice^fields + fixed malformed tokens; \
+             boundary lattice + every scalar value; H = family templates x hostile number lattice^fields + fixed malformed tokens; N = 16 sequence shapes with one numeric field \
+             taking every value 0..=70 000 (thorough: every value up to 0x110010; single read); \
              E = all single (thorough: double) byte edits of base tokens; non-trivial = escape-sequence shaped or malformed UTF-8 \
              inputs (H, E, U lattice)",
         )
